@@ -284,6 +284,8 @@ def profile_features(profile):
         tags.append('only_in_shared')
     if any(b and isinstance(b[0], list) for b, _ in profile):
         tags.append('shared_first')
+    if any(b and isinstance(b[0], list) and len(b[0]) >= 3 for b, _ in profile):
+        tags.append('shared3_first')
     d = own_pairwise(profile)
     pc = sorted({c for p in d for c in p})
     if len(pc) >= 4 and len(smith_set(d, pc)) >= 4 and not condorcet_winner(d, pc):
